@@ -53,17 +53,17 @@ CHECKS = {
          "Generated sequences of well-formed and malformed lines are delivered to a running guest; final memory cells, pin levels, DDR/DR and the sequence of announced output changes must equal the reference interpreter for every schedule, and the final cmd:stop must end the run (watchdog: a stop that is not acted on is a lost line). Over TCP the wire bytes must split into one line per emitted message and unescape to the original text.", "2 C18"),
 }
 NOTES = {
- "C09": "Trusted base: the five-interval predicate transcribed from the statement; rustc. Port DDR/DR are excluded (C16).",
+ "C09": "Trusted base: the five-interval predicate transcribed from the statement; rustc. Port DDR/DR are excluded (C16). Histories interleave instruction fetches (a read path too) with the loads and stores.",
  "C10": "Trusted base: reference model (as C01-C08), the guest-program generator (handlers must be race-free by construction), the cfg-guarded hooks for poll/step/request. The emulator has no real asynchrony, so injection points between instructions are the whole schedule space.",
  "C11": "Trusted base: the harness's ELF builder (the spec is the oracle); generated files are structurally valid by construction. Search, not proof.",
  "C12": "Trusted base: the ELF builder and the statement's arithmetic re-implemented in the check. Search, not proof.",
- "C13": "Trusted base: the stepped re-implementation of the statement's accounting, the hooks, the reference model. 'Independent of host speed' is sampled under CPU contention, never proved; no wall-clock value is asserted.",
+ "C13": "Also runs the repository's real release binary (built from the current tree) on a subset: exit status and the exact stdout stream of -m must equal the in-process run (covers src/main.rs). Some runs start at the last sync multiple below 2^32. Trusted base: the stepped re-implementation of the statement's accounting, the hooks, the reference model. 'Independent of host speed' is sampled under CPU contention, never proved; no wall-clock value is asserted.",
  "C14": "Trusted base: reference model of the two MES calls; the per-vector GOT save word and the installed entry's top byte are masked. Console capture redirects file descriptor 1 of the check process.",
  "C15": "Absence of panics is never established by search; the evidence lists what was exercised per class and profile. Aborts (stack overflow) would kill the check process: reported as exit 2.",
  "C16": "Trusted base: the three-field port model written from the statement. Extra messages repeating the current value are allowed.",
  "C17": "Trusted base: the tick model; both readings of 'cleared by the compare match' (same tick / next tick) are accepted; clock selections 4-7 are not generated.",
- "C18": "Trusted base: the reference interpreter of the line protocol (hex fields = non-empty strings of hex digits that fit). Thread interleavings of the socket workers are sampled by the OS; the one-batch schedule is deterministic.",
- "C19": "Trusted base: the 10-line cost function transcribed from the statement. Complete enumeration of the per-area tuple space; other areas' settings sampled + one-bit flips.",
+ "C18": "Also runs the real release binary over TCP (-s -w): every message of generated programs (a quarter end with a burst of port messages) must arrive before the connection closes; failures of the TCP rig itself are inconclusive (exit 2 from 8 on), never a verdict. Trusted base: the reference interpreter of the line protocol (hex fields = non-empty strings of hex digits that fit). Thread interleavings of the socket workers are sampled by the OS; the one-batch schedule is deterministic.",
+ "C19": "Trusted base: the 10-line cost function transcribed from the statement. Complete enumeration of the per-area tuple space; other areas' settings sampled + one-bit flips; plus a transition walk (one register changes at a time, registers written through Bus::write) for history-dependent costs.",
 }
 ALL = ["C%02d" % i for i in range(1, 21)]
 manifest = {
